@@ -286,6 +286,8 @@ class Explorer:
         self.accesses = 0
         self.transitions = 0
         self.machine_cls = machine_cls or RingMachine
+        self.spin_bound = 120
+        self.spins_cut = 0
 
     def advance(self, shared, log, t, budget):
         """re-walk thread t with its answer log, then perform `budget` more
@@ -329,10 +331,21 @@ class Explorer:
                 if self.final_ops:
                     sh = shared.copy()
                     fm = self.machine_cls(self.prog, self.unit, sh, tid=n)
-                    fm.run_ops(self.final_ops)
+                    fm.max_steps = 20000
+                    try:
+                        fm.run_ops(self.final_ops)
+                    except Undecided as u:
+                        # alone, with every other operation complete, an operation must terminate
+                        raise Finding('non-termination', None, 'after all threads have finished, a single-threaded %s does not return (%s): '
+                                      'the structure is left inconsistent' % (self.final_ops[0][0], u))
                 on_complete(infos, fm, sh)
                 continue
             for t in pending:
+                if len(infos[t].curkey) >= self.spin_bound:
+                    # a retry loop that keeps being overtaken (unfair schedule): the iterations change nothing
+                    # shared, the schedule that lets the others finish first is explored anyway
+                    self.spins_cut += 1
+                    continue
                 sh, lg, inf = self.advance(shared, logs[t], t, 1)
                 nl = list(logs)
                 nl[t] = lg
